@@ -45,6 +45,10 @@ class IndexOut(Unsupported):
         self.size = size
 
 
+class LoopBound(Unsupported):
+    """A `while` loop of the evaluated code exceeded the iteration bound on a finite abstract state."""
+
+
 class Sym:
     """Opaque symbol, optionally indexed: Sym('B', (3,))."""
     __slots__ = ("name", "idx")
@@ -240,6 +244,15 @@ def _arith(op: ast.operator, a, b, node):
         if isinstance(op, ast.Div) and lb.is_const() and lb.const != 0:
             return la.scale(Fraction(1) / Fraction(lb.const))
         raise Unsupported(f"operator {type(op).__name__} on symbolic values", node)
+    if isinstance(a, (set, frozenset)) and isinstance(b, (set, frozenset)):
+        if isinstance(op, ast.Sub):
+            return a - b
+        if isinstance(op, ast.BitOr):
+            return a | b
+        if isinstance(op, ast.BitAnd):
+            return a & b
+        if isinstance(op, ast.BitXor):
+            return a ^ b
     if isinstance(a, str) and isinstance(op, ast.Add) and isinstance(b, str):
         return a + b
     if isinstance(a, str) and isinstance(op, ast.Mult) and isinstance(b, int):
@@ -366,6 +379,7 @@ class Evaluator:
         self.trace: List[ast.AST] = []      # statements executed (for coverage / reporting)
         # when set, `name = <unsupported expr>` binds an opaque Sym(name) and records the defining expression
         self.opaque_ok = False
+        self.while_bound = 10000
         self.sym_compare = None             # callable(left Lin, op, right Lin, node) -> bool for symbolic comparisons
         self.strict_index = False           # negative indices into concrete lists are out-of-bounds (array semantics)
         self.attr_fallback = None           # callable(dotted) -> value | None for unknown dotted attribute reads
@@ -397,6 +411,7 @@ class Evaluator:
         child.strict_index = self.strict_index
         child.attr_fallback = self.attr_fallback
         child.opaque_ok = self.opaque_ok
+        child.while_bound = self.while_bound
         body = list(fnode.body)
         if body and isinstance(body[0], ast.Expr) and isinstance(body[0].value, ast.Constant) \
                 and isinstance(body[0].value.value, str):
@@ -559,6 +574,25 @@ class Evaluator:
             left = right
         return res
 
+    def _e_Lambda(self, n):
+        names = [a.arg for a in n.args.args]
+        outer = self
+
+        def fn(*args):
+            if len(args) != len(names):
+                raise Unsupported("lambda arity", n)
+            child = Evaluator(dict(outer.env), outer.funcs, outer.max_steps)
+            child.attr_fallback = outer.attr_fallback
+            child.sym_compare = outer.sym_compare
+            child.env.update(dict(zip(names, args)))
+            return child.ev(n.body)
+        return fn
+
+    def _e_Slice(self, n):
+        return slice(self.ev(n.lower) if n.lower is not None else None,
+                     self.ev(n.upper) if n.upper is not None else None,
+                     self.ev(n.step) if n.step is not None else None)
+
     def _e_IfExp(self, n):
         return self.ev(n.body) if self.truth(self.ev(n.test), n.test) else self.ev(n.orelse)
 
@@ -643,6 +677,21 @@ class Evaluator:
         if name in ("len", "min", "max", "abs", "int", "float", "range", "str", "bool", "set", "list", "tuple",
                     "sorted", "enumerate", "isinstance"):
             args = [self.ev(a) for a in n.args]
+            if name == "sorted" and n.keywords:
+                kw = {k.arg: self.ev(k.value) for k in n.keywords}
+                seq = args[0]
+                if isinstance(seq, dict):
+                    seq = list(seq)
+                if isinstance(seq, (set, frozenset)):
+                    seq = sorted(seq, key=repr)
+                if not isinstance(seq, (list, tuple)) or set(kw) - {"key", "reverse"}:
+                    raise Unsupported("sorted arguments", n)
+                keyf = kw.get("key")
+                keys = [keyf(x) if keyf else x for x in seq]
+                if any(isinstance(k, (Sym, Lin, Vec)) for k in keys):
+                    raise Unsupported("sort key is symbolic", n)
+                order = sorted(range(len(seq)), key=lambda i: keys[i], reverse=bool(kw.get("reverse", False)))
+                return [seq[i] for i in order]
             if n.keywords:
                 raise Unsupported("keywords in builtin call", n)
             if name == "len":
@@ -678,6 +727,8 @@ class Evaluator:
                 raise Unsupported("str of abstract", n)
             if name == "bool":
                 return self.truth(args[0], n)
+            if name == "sorted" and False:
+                pass
             if name in ("list", "tuple", "set") and not args:
                 return {"list": list, "tuple": tuple, "set": set}[name]()
             if name in ("list", "tuple", "sorted", "set"):
@@ -864,8 +915,8 @@ class Evaluator:
             n = 0
             while self.truth(self.ev(st.test), st.test):
                 n += 1
-                if n > 10000:
-                    raise Unsupported("while bound exceeded", st)
+                if n > self.while_bound:
+                    raise LoopBound("while bound exceeded", st)
                 try:
                     self.block(st.body)
                 except _Break:
